@@ -41,7 +41,12 @@ var writeRe = regexp.MustCompile(`^(Set|Remove|Delete|Clear|Add|Sub|Transfer|Sla
 // not into a failed transaction.
 var totalReads = map[string]bool{"ConsensusParameters": true, "Account": true}
 
+// fatalMode: translate for the fatal-path ledger (C10): inline every same-package callee and the
+// methods of the application's state package, keep all error returns.
+var fatalMode bool
+
 type hfPkg struct {
+	sub   *hfPkg // the application's `state` sub-package (fatal mode only)
 	name  string
 	funcs map[string]*ast.FuncDecl // by name (methods and functions); nil when ambiguous
 	fset  *token.FileSet
@@ -312,6 +317,15 @@ func (c *hfCtx) callFlow(call *ast.CallExpr) (string, error) {
 			}
 			return ".skip", nil
 		}
+		if fatalMode && recv != "" && c.stateVar[recv] && c.pkg.sub != nil {
+			if fd, ok := c.pkg.sub.funcs[m]; ok && fd != nil && !simpleAccessor(fd) {
+				saved := c.pkg
+				c.pkg = c.pkg.sub
+				fl, err := c.inline(fd, call)
+				c.pkg = saved
+				return fl, err
+			}
+		}
 		if recv != "" && c.stateVar[recv] {
 			if writeRe.MatchString(m) {
 				c.writeM[m] = true
@@ -415,7 +429,7 @@ func (c *hfCtx) inline(fd *ast.FuncDecl, call *ast.CallExpr) (string, error) {
 	if err != nil {
 		return "", err
 	}
-	if !strings.Contains(body, ".write") && !strings.Contains(body, ".publish") && !strings.Contains(body, "Tx") && !strings.Contains(body, ".mk") {
+	if !fatalMode && !strings.Contains(body, ".write") && !strings.Contains(body, ".publish") && !strings.Contains(body, "Tx") && !strings.Contains(body, ".mk") {
 		// nothing of interest inside: an opaque fallible call
 		return ".ext", nil
 	}
@@ -619,12 +633,20 @@ func (c *hfCtx) stmtFlow(s ast.Stmt) (string, error) {
 		}
 		parts = append(parts, initFl, tagFl, ".clearErr")
 		var alts []string
+		var ft []bool
 		hasDefault := false
 		for _, cl := range x.Body.List {
 			cc := cl.(*ast.CaseClause)
 			if cc.List == nil {
 				hasDefault = true
 			}
+			isFT := false
+			if n := len(cc.Body); n > 0 {
+				if br, ok := cc.Body[n-1].(*ast.BranchStmt); ok && br.Tok == token.FALLTHROUGH {
+					isFT = true
+				}
+			}
+			ft = append(ft, isFT)
 			var cparts []string
 			for _, e := range cc.List {
 				fl, err := c.exprFlow(e)
@@ -639,6 +661,11 @@ func (c *hfCtx) stmtFlow(s ast.Stmt) (string, error) {
 			}
 			cparts = append(cparts, fl)
 			alts = append(alts, seq(cparts))
+		}
+		for k := len(alts) - 2; k >= 0; k-- {
+			if ft[k] {
+				alts[k] = seq([]string{alts[k], alts[k+1]})
+			}
 		}
 		if !hasDefault {
 			alts = append(alts, ".skip")
@@ -707,6 +734,10 @@ func (c *hfCtx) stmtFlow(s ast.Stmt) (string, error) {
 		switch {
 		case identName(last) == "nil":
 			parts = append(parts, ".retOk")
+		case isUnavailable(last):
+			parts = append(parts, ".retErrU")
+		case isErrWrap(last):
+			parts = append(parts, ".retErrVar "+q(c.pos(x))) // wraps and propagates `err`
 		case isErrCtor(last):
 			parts = append(parts, ".retErr "+q(c.pos(x)))
 		case isCall(last) && len(x.Results) == 1:
@@ -720,7 +751,7 @@ func (c *hfCtx) stmtFlow(s ast.Stmt) (string, error) {
 	case *ast.DeferStmt:
 		// `defer ctx.Close()` is the rollback of an uncommitted transaction; modelled by the
 		// analysis at function exit. Other deferred calls: translate as optional.
-		if se, ok := x.Call.Fun.(*ast.SelectorExpr); ok && se.Sel.Name == "Close" {
+		if se, ok := x.Call.Fun.(*ast.SelectorExpr); ok && (se.Sel.Name == "Close" || se.Sel.Name == "Discard") {
 			return ".skip", nil
 		}
 		fl, err := c.exprFlow(x.Call)
@@ -733,8 +764,8 @@ func (c *hfCtx) stmtFlow(s ast.Stmt) (string, error) {
 		return "", fmt.Errorf("%s: unsupported defer with effects", c.pos(x))
 	case *ast.BranchStmt:
 		switch x.Tok {
-		case token.CONTINUE, token.BREAK:
-			return ".skip", nil // over-approximated by loop/alt semantics
+		case token.CONTINUE, token.BREAK, token.FALLTHROUGH:
+			return ".skip", nil // over-approximated by loop/alt semantics (fallthrough: see switch)
 		}
 		return "", fmt.Errorf("%s: unsupported branch statement %s", c.pos(x), x.Tok)
 	case *ast.IncDecStmt, *ast.EmptyStmt:
@@ -750,6 +781,46 @@ func (c *hfCtx) stmtFlow(s ast.Stmt) (string, error) {
 }
 
 func isCall(e ast.Expr) bool { _, ok := e.(*ast.CallExpr); return ok }
+
+// isErrWrap recognises `fmt.Errorf("…%w…", …, err)`: propagation of the pending error.
+func isErrWrap(e ast.Expr) bool {
+	call, ok := e.(*ast.CallExpr)
+	if !ok || !isErrCtor(e) || len(call.Args) < 2 {
+		return false
+	}
+	lit, ok := call.Args[0].(*ast.BasicLit)
+	if !ok || !strings.Contains(lit.Value, "%w") {
+		return false
+	}
+	return identName(call.Args[len(call.Args)-1]) == "err"
+}
+
+// isUnavailable recognises `abciAPI.UnavailableStateError(err)`.
+func isUnavailable(e ast.Expr) bool {
+	call, ok := e.(*ast.CallExpr)
+	if !ok {
+		return false
+	}
+	se, ok := call.Fun.(*ast.SelectorExpr)
+	return ok && se.Sel.Name == "UnavailableStateError"
+}
+
+// simpleAccessor: a state-package method whose every error return is a state-unavailable error
+// or nil (plain getters/setters); it is kept opaque (read/write classification applies).
+func simpleAccessor(fd *ast.FuncDecl) bool {
+	simple := true
+	ast.Inspect(fd.Body, func(n ast.Node) bool {
+		if r, ok := n.(*ast.ReturnStmt); ok && len(r.Results) > 0 {
+			last := r.Results[len(r.Results)-1]
+			if identName(last) == "nil" || isUnavailable(last) {
+				return true
+			}
+			simple = false
+		}
+		return true
+	})
+	return simple
+}
 
 // isErrCtor recognises expressions that construct a new error value (fmt.Errorf, errors.New, …).
 func isErrCtor(e ast.Expr) bool {
@@ -828,6 +899,67 @@ func genHandlerFacts(repo, out string, args []string) error {
 	b.WriteString("def writeMethods : List String := [" + joinSorted(writeM) + "]\n")
 	b.WriteString("def readMethods : List String := [" + joinSorted(readM) + "]\n")
 	b.WriteString("\nend Generated.HandlerFacts\n")
+	return os.WriteFile(out, []byte(b.String()), 0o644)
+}
+
+func init() { kinds["fatalpaths"] = genFatalPaths }
+
+func genFatalPaths(repo, out string, args []string) error {
+	fatalMode = true
+	apps := filepath.Join(repo, "go/consensus/cometbft/apps")
+	roots := []hfRoot{
+		{"beacon", "Application.BeginBlock"}, {"beacon", "Application.EndBlock"},
+		{"governance", "BeginBlock"}, {"governance", "EndBlock"},
+		{"keymanager", "Application.BeginBlock"}, {"keymanager", "Application.EndBlock"},
+		{"keymanager/churp", "BeginBlock"}, {"keymanager/secrets", "BeginBlock"},
+		{"registry", "BeginBlock"}, {"registry", "EndBlock"},
+		{"roothash", "BeginBlock"}, {"roothash", "EndBlock"},
+		{"scheduler", "BeginBlock"}, {"scheduler", "EndBlock"},
+		{"staking", "BeginBlock"}, {"staking", "EndBlock"},
+		{"vault", "BeginBlock"}, {"vault", "EndBlock"},
+	}
+	var b strings.Builder
+	b.WriteString("import OasisModel.Handlers.Flow\n/- REGENERATED by tools/gen fatalpaths from /repo — do not edit. -/\nnamespace Generated.FatalPaths\nopen OasisModel.Handlers\n\n")
+	var names []string
+	for _, r := range roots {
+		p, err := loadPkg(filepath.Join(apps, r.dir))
+		if err != nil {
+			return err
+		}
+		if sp, err := loadPkg(filepath.Join(apps, r.dir, "state")); err == nil {
+			p.sub = sp
+		}
+		fd := p.funcs[r.fn]
+		if fd == nil {
+			return fmt.Errorf("%s: %s not found or ambiguous", r.dir, r.fn)
+		}
+		c := &hfCtx{pkg: p, stateVar: map[string]bool{}, ctxVar: map[string]bool{}, rename: map[string]string{},
+			stack: []string{r.fn}, readM: map[string]bool{}, writeM: map[string]bool{}, fn: fd, ids: map[string]int{}}
+		for _, fld := range fd.Type.Params.List {
+			ts := typeStr(fld.Type)
+			for _, n := range fld.Names {
+				if strings.HasSuffix(ts, "Context") {
+					c.ctxVar[n.Name] = true
+				}
+			}
+		}
+		fl, err := c.blockFlow(fd.Body.List)
+		if err != nil {
+			return fmt.Errorf("%s.%s: %v", r.dir, r.fn, err)
+		}
+		id := strings.ReplaceAll(r.dir, "/", "_") + "_" + strings.ReplaceAll(r.fn, ".", "_")
+		names = append(names, id)
+		b.WriteString(fmt.Sprintf("def %s : Flow :=\n  %s\n\n", id, fl))
+	}
+	b.WriteString("def all : List (String × Flow) := [\n")
+	for i, n := range names {
+		sep := ","
+		if i == len(names)-1 {
+			sep = ""
+		}
+		b.WriteString(fmt.Sprintf("  (%s, %s)%s\n", q(n), n, sep))
+	}
+	b.WriteString("]\n\nend Generated.FatalPaths\n")
 	return os.WriteFile(out, []byte(b.String()), 0o644)
 }
 
